@@ -67,11 +67,11 @@ CLAIMS['C13'] = dict(
     technique="TLA+ format definition + state machine; TLC validation of recorded round trips and file histories", ref='6 C13')
 CLAIMS['C01'] = dict(
     text=("spec/Variants.tla + Peptides.tla define, with no graph, the set C01 requires: for every compatible haplotype of the usable variants (adjacent same-class pairs merged as --max-adjacent-as-mnv does; alternative-splicing insertion / deletion / substitution records in the replace-[start,end)-by-alt form that Rmats.tla proves equal to their denotation), apply it to the transcript, translate from every permitted start to the stop (annotated Sec read as U, Sec-terminated forms and W>F images when those flags are on), digest under the case's rule/exception/miscleavage/limits incl. M-removed start peptides, and subtract the digest of the unmodified transcript (incl. its Sec-terminated / W>F forms when switched on) and the canonical pool. CallVariantOracle has TLC compute that set for each generated input and compare it with the FASTA the real callVariant wrote (Complete subset of output). 510 / 13 600 inputs over 17 modes: random references (both strands, coding/non-coding, multi-exon, NF tags, Sec, several genes), 1-5 small variants per transcript incl. dense clusters, adjacent and multi-allelic sites, variants aimed at stop codons (SNV, merged pair, MNV record, indels), alt-translation flags, Gly/Ala-rich proteins with binding mass limits, AS records, 13 / 35 enzymes, collapse knobs; complexity limits off."),
-    note=("Bounded exhaustive per input (all haplotypes) but sampled over inputs; small variants inside one exon; fusion backbones are covered for coding donors without further variants (clause fusion_peptides_complete of FusionTrace on the C15 campaign) and circRNA backbones without further variants (clause circ_peptides_complete of CircTrace on the C17 campaign: circle read as four copies, every ATG of the first copy); fusion / circRNA combined with small variants are exercised only by C05-C07 runs; variants nested in an inserted AS segment are supported by the spec but off by default (VERIF_NESTED=1) because the tool's output for them is not deterministic run to run; recorded findings: cleavage patterns beyond P1/P1' evaluated per graph node, --naa-to-collapse 1, phantom cleavage sites in AS segments with nested variants."),
+    note=("Bounded exhaustive per input (all haplotypes) but sampled over inputs; small variants inside one exon; fusion backbones are covered for coding donors whose exonic part kept contains the start codon, with the small variants of the donor and acceptor genes placed on the fused sequence (clause fusion_peptides_complete of FusionTrace on the C15 campaign; every compatible subset of the variants the tool's lookup takes), and circRNA backbones for circles whose host transcript has no small variant in the input (clause circ_peptides_complete of CircTrace on the C17 campaign: circle read as four copies, every ATG of the first copy); circRNA completeness WITH small variants is exercised only by C05-C07 runs; variants nested in an inserted AS segment are supported by the spec but off by default (VERIF_NESTED=1) because the tool's output for them is not deterministic run to run; recorded findings: cleavage patterns beyond P1/P1' evaluated per graph node, --naa-to-collapse 1, phantom cleavage sites in AS segments with nested variants."),
     technique='TLA+ definitional oracle evaluated by TLC per recorded input; implementation output validated against it', ref='12.4')
 CLAIMS['C02'] = dict(
     text=("Same oracle, other inclusion: every FASTA sequence must lie in Sound (as Complete, but with the permissive adjacency rule, open-ended tail fragments, all nested variants, and W>F images of every product of a variant haplotype). In addition inputs are re-run with binding complexity limits (max-variants-per-node 0/1/2, additional-variants-per-misc 0/1) and with injected TimeoutErrors that walk caller_reducer's retry ladder (guarded hook): the outputs must stay inside the unlimited output, i.e. limits and retries only remove peptides."),
-    note=('As C01; retries are provoked by the guarded timeout hook, not by real timeouts; circRNA backbones: clause circ_peptides_sound of CircTrace (every CIRC-labelled peptide is a product of the circle read as four copies); fusion soundness is decided in C15.'),
+    note=('As C01; retries are provoked by the guarded timeout hook, not by real timeouts; circRNA backbones: clause circ_peptides_sound of CircTrace (every CIRC-labelled peptide is a product of the circle, carrying one compatible subset of the host transcript's small variants in every copy, read as four copies; incl. tiny circles whose start codon a variant destroys and one pinned regression world); fusion soundness incl. small variants is decided in C15 (peptides_from_fused_sequence).'),
     technique='TLA+ definitional oracle + paired runs under restricted limits', ref='12.4')
 CLAIMS['C04'] = dict(
     text=("OutputTrace.tla: for the FASTA and peptide table of every callVariant run of the C01 campaign and the FASTA of "
@@ -142,7 +142,7 @@ CLAIMS['C15'] = dict(
           "and parseArriba (argparse included) are run on generated tool files for all ordered gene pairs x breakpoints at exon "
           "ends/starts, inside exons and in introns x evidence around the thresholds x unknown gene ids; FusionTrace has TLC check "
           "one record per eligible transcript pair at the spec's positions, skipping, and that every FUSION-labelled peptide the real "
-          "callVariant produces from the STAR-Fusion GVF is a digestion product of the spec's fused sequence."),
+          "callVariant produces from the STAR-Fusion GVF plus a GVF of small variants is a digestion product of the spec's fused sequence carrying a compatible subset of the variants placed on it (own records on the exonic parts, the gene's records on retained intronic stretches)."),
     note="REF base of fusion records is cosmetic and not checked; callVariant soundness is checked for STAR-Fusion output (the three parsers emit identical records).",
     technique="TLA+ definitional spec; TLC validation of CLI outputs and of callVariant peptides", ref='6 C15')
 CLAIMS['C16'] = dict(
